@@ -11,7 +11,7 @@ use lattices::set_union::{SetUnion, SetUnionHashSet, SetUnionSingletonSet};
 use lattices::set_union_with_tombstones::{
     SetUnionWithTombstones, SetUnionWithTombstonesFstString, SetUnionWithTombstonesRoaring,
 };
-use lattices::tombstone::{FstTombstoneSet, RoaringTombstoneSet};
+use lattices::tombstone::{FstTombstoneSet, RoaringTombstoneSet, TombstoneSet};
 use lattices::{IsBot, Merge};
 
 pub const RULE: &str = "merge histories of replica states (live, tombstones) over item/key domain {0..dom} into bottom, on every tombstone backend, with re-merges in permuted orders; non-trivial = some item/key is inserted by one replica and tombstoned by a replica of the same history; distinct = distinct op-line sequences";
@@ -128,6 +128,25 @@ fn fresh_sets() -> Vec<Box<dyn SetBackend>> {
         Box::new(SFst::default()),
     ]
 }
+
+// ------------------------------------------------------------------------------------ bare tombstone backends
+
+/// `tb union A|B q`: on one `TombstoneSet` backend build X = A.collect(), Y = B.collect(), answer
+/// `<X.union_with(&Y)>/<X afterwards>/<len>/<contains q>/<A.collect().extend(B)>` (everything through the trait)
+fn tb_union<I: Key, T>(a: &[u64], b: &[u64], q: u64) -> (usize, Vec<u64>, usize, bool, Vec<u64>)
+where
+    T: TombstoneSet<I> + FromIterator<I> + IntoIterator<Item = I> + Clone,
+{
+    let mut x: T = conv::<I>(a).into_iter().collect();
+    let y: T = conv::<I>(b).into_iter().collect();
+    let old = x.union_with(&y);
+    let len = lattices::cc_traits::Len::len(&x);
+    let has = TombstoneSet::contains(&x, &I::of(q));
+    let mut e: T = conv::<I>(a).into_iter().collect();
+    e.extend(conv::<I>(b));
+    (old, back(x.clone()), len, has, back(e))
+}
+const TB_TAGS: [&str; 3] = ["hs", "ro", "fst"];
 
 // ------------------------------------------------------------------------------------ maps
 
@@ -389,6 +408,31 @@ impl Runner {
                 }
                 tagged(&SET_TAGS, &outs)
             }
+            ["tb", "union", r, q] => {
+                let (Some((a, b)), Ok(q)) = (parse_tset(r), q.parse::<u64>()) else { return "bad-op".into() };
+                let (sa, sb): (BTreeSet<u64>, BTreeSet<u64>) = (a.iter().copied().collect(), b.iter().copied().collect());
+                let want: Vec<u64> = sa.union(&sb).copied().collect();
+                let res = [
+                    std::panic::catch_unwind(|| tb_union::<u64, HashSet<u64>>(&a, &b, q)),
+                    std::panic::catch_unwind(|| tb_union::<u64, RoaringTombstoneSet>(&a, &b, q)),
+                    std::panic::catch_unwind(|| tb_union::<String, FstTombstoneSet<String>>(&a, &b, q)),
+                ];
+                let mut outs = vec![];
+                for (r, tag) in res.into_iter().zip(TB_TAGS) {
+                    let Ok((old, items, len, has, ext)) = r else {
+                        rec.check(false, &format!("tombstone-set-panicked@{tag}"), line);
+                        outs.push("panic".into());
+                        continue;
+                    };
+                    rec.check(items == want && len == want.len(), &format!("tombstone-union-with-not-union@{tag}"), &format!("{line} -> {}", show_nats(",", &items)));
+                    rec.check(old == sa.len(), &format!("tombstone-union-with-old-len@{tag}"), &format!("{line} -> {old}"));
+                    rec.check(has == want.contains(&q), &format!("tombstone-contains@{tag}"), line);
+                    rec.check(ext == want, &format!("tombstone-extend-not-union@{tag}"), &format!("{line} -> {}", show_nats(",", &ext)));
+                    outs.push(format!("{old}/{}/{len}/{has}/{}", show_nats(",", &items), show_nats(",", &ext)));
+                }
+                rec.count(&format!("tb-union:{}", if sa.is_disjoint(&sb) { "disjoint" } else { "overlap" }));
+                tagged(&TB_TAGS, &outs)
+            }
             ["tm", "merge", repr, r] => {
                 let Some((m, t)) = parse_tmap(r) else { return "bad-op".into() };
                 if has_dups(&m.iter().map(|e| e.0).collect::<Vec<_>>()) {
@@ -555,6 +599,15 @@ fn gen_set_case(rng: &mut Rng, thorough: bool) -> Vec<String> {
         ls.push(format!("ts perm {}", show_unsorted(&ix)));
     }
     ls.push("ts state".into());
+    // the bare TombstoneSet trait surface of every backend (union_with / extend / contains / len)
+    let (mut a, mut b) = (subset(rng, dom + 2, 1, 2), subset(rng, dom + 2, 1, 2));
+    if rng.chance(1, 3) && !b.is_empty() {
+        let d = *rng.pick(&b);
+        b.push(d);
+    }
+    shuffle(rng, &mut a);
+    shuffle(rng, &mut b);
+    ls.push(format!("tb union {}|{} {}", show_unsorted(&a), show_unsorted(&b), rng.below(dom + 2)));
     ls
 }
 
@@ -716,7 +769,7 @@ pub fn run(args: &Args, rec: &mut Recorder) {
         let mut ls = if set { gen_set_case(&mut rng, thorough) } else { gen_map_case(&mut rng, thorough) };
         if rng.chance(1, 12) {
             // malformed stream
-            let bad = ["ts merge vec 1,x|2", "ts merge vec 1,2", "ts frob", "tm merge vec 1:2:3|-", "tm merge vec 1|2", "ts perm 99", "tm perm 0,x", "zz", "ts merge vec 1|2|3"];
+            let bad = ["ts merge vec 1,x|2", "ts merge vec 1,2", "ts frob", "tm merge vec 1:2:3|-", "tm merge vec 1|2", "ts perm 99", "tm perm 0,x", "zz", "ts merge vec 1|2|3", "tb union 1|2", "tb union 1|2 x", "tb union 1 2"];
             let at = rng.below(ls.len() as u64 + 1) as usize;
             ls.insert(at, rng.pick(&bad).to_string());
         }
